@@ -645,11 +645,7 @@ def run(chk):
         "functions that are declared but have no body in pack.c are outside the property's scope ('implemented operations')",
     ]
     chk.trusted_base += ["sa/domains/lanes.py (ByteLane transfer functions)"]
-    run_build(chk, "default")
-    if chk.tier == "thorough":
-        chk.rule_prefix = "uchar."      # plain char unsigned, as on the ARM targets (rf_unpack_char, byte stores)
-        run_build(chk, "uchar")
-        chk.rule_prefix = ""
+    run_build(chk, "default")      # (the unsigned-char and other build variants are run by core.run_check for every check)
 
 
 def run_build(chk, cfg):
